@@ -510,9 +510,14 @@ class TimeBase(np.ndarray):
 
     def __getitem__(self, item):
         """Update _jd*_sliced with correct shape, used by __array_finalize__"""
-        # The epochs are indexed by the first entry of a tuple index (super.__getitem__ and other super methods like
-        # __repr__ send in tuples to access individual elements)
-        jd_item = (item[0] if item else Ellipsis) if isinstance(item, tuple) else item
+        if isinstance(item, tuple) and np.ndim(self.jd1) == self.ndim:
+            # One-column formats: the Julian dates have the shape of the values, the same index selects the same epochs
+            # (the first entry alone is not the epoch index of t[..., i])
+            jd_item = item
+        else:
+            # The epochs are indexed by the first entry of a tuple index (super.__getitem__ and other super methods like
+            # __repr__ send in tuples to access individual elements)
+            jd_item = (item[0] if item else Ellipsis) if isinstance(item, tuple) else item
         if isinstance(self.jd1, np.ndarray):
             super().__setattr__("_jd1_sliced", self.jd1[jd_item])
         if isinstance(self.jd2, np.ndarray):
